@@ -19,7 +19,7 @@ PROP = dict(
           'sign-helper entry point; distinct by hash of (family, entry point, '
           'value, width selector)'),
     quick=dict(configs=['asan', 'rel', 'dbg'], cases=3000000, maxlen=96),
-    thorough=dict(configs=['asan', 'rel', 'dbg'], cases=60000000, maxlen=96,
+    thorough=dict(configs=['asan', 'rel', 'dbg'], cases=40000000, maxlen=96,
                   fuzz_s=60, setmax=1 << 23,
                   extra_sweeps=[dict(name='u32', parts=16, configs=['rel'])]),
     required_classes=['signed', 'tagged.len9', 'splitFull16.len9',
